@@ -22,6 +22,8 @@ pub const FAMILIES: &[(&str, u64)] = &[
     ("conf-soft", 1),
     ("deep-hints", 1),
     ("medium-hints", 1),
+    ("many-excl", 1),
+    ("many-excl-hints", 1),
     ("cyclic", 3),
 ];
 
